@@ -29,7 +29,8 @@ Definition pre_ops (hs_called est_x : bool) : list op :=
 (* events: 0 close, 1 fatal alert received, 2 deadlines expired, 3 handshake ctx done,
    4 close placed between the read loop's close_notify reply and its close(false),
    5 close before any Handshake call (then Handshake is called),
-   6 nothing (a delivered alert was not accepted); the later Close() is the first one *)
+   6 nothing (a delivered alert was not accepted); the later Close() is the first one,
+   7 close on a socket that does not take writes (the close_notify write runs into its limit) *)
 Definition event_ops (ev : N) (closers : nat) : list op :=
   match ev with
   | 0 => repeat SpawnClose closers
@@ -38,6 +39,7 @@ Definition event_ops (ev : N) (closers : nat) : list op :=
   | 3 => [Env EHsCtx]
   | 4 => [Env ERecvCN; StepReader] ++ repeat SpawnClose closers ++ map StepUser (seq 0 closers)
   | 5 => repeat SpawnClose closers
+  | 7 => Env EWrBlock :: repeat SpawnClose closers
   | _ => []
   end%N.
 
@@ -67,7 +69,7 @@ Definition e2e_ok (c : e2e_case) : bool :=
             else run (SpawnClose :: rr (S closers) 8) g3 in
   let cf := cn g4 in
   (* every Close() returned nil *)
-  forallb (N.eqb 1) close_res && (length close_res =? (if memN ev [0; 4; 5]%N then closers else 0))%nat &&
+  forallb (N.eqb 1) close_res && (length close_res =? (if memN ev [0; 4; 5; 7]%N then closers else 0))%nat &&
   all_done (us g4) &&
   (* close_notify records on the wire *)
   (cn_x =? N.of_nat (cn_close cf + cn_reply cf))%N &&
@@ -130,4 +132,20 @@ Example e2e_ok_write13_closed :
 Proof. vm_compute. reflexivity. Qed.
 Example e2e_ok_write13_rejects_canceled :
   e2e_ok ((0, true, false, false, true, 2), (true, true), ([1; 1], 1, 2, 6), (1, true), (1, 3, 2))%N = false.
+Proof. vm_compute. reflexivity. Qed.
+(* Close() during the handshake: the pending HandshakeContext ends with ErrConnClosed (3), not
+   with context.Canceled (6) - commit 83f5bff *)
+Example e2e_ok_close_during_handshake_closed :
+  e2e_ok ((0, false, false, true, false, 1), (false, false), ([1], 3, 0, 0), (0, true), (1, 3, 0))%N = true.
+Proof. vm_compute. reflexivity. Qed.
+Example e2e_ok_close_during_handshake_rejects_canceled :
+  e2e_ok ((0, false, false, true, false, 1), (false, false), ([1], 6, 0, 0), (0, true), (1, 3, 0))%N = false.
+Proof. vm_compute. reflexivity. Qed.
+(* Close() on a socket that does not take writes: returns, no close_notify record - commit 8ae01eb;
+   a Close() that did not return (code 9) is rejected *)
+Example e2e_ok_close_blocked_socket :
+  e2e_ok ((7, false, false, false, true, 2), (true, false), ([1; 1], 1, 2, 0), (0, true), (1, 3, 2))%N = true.
+Proof. vm_compute. reflexivity. Qed.
+Example e2e_ok_close_blocked_socket_rejects_stuck :
+  e2e_ok ((7, false, false, false, true, 2), (true, false), ([9; 1], 1, 2, 0), (0, true), (1, 3, 2))%N = false.
 Proof. vm_compute. reflexivity. Qed.
